@@ -98,7 +98,7 @@ pub fn check_pos(ctx: &mut Ctx, mp: &MPos, b: &Board) {
     }
 
     // 4. on a sample of positions: validate on EVERY well-formed tuple of the side to move
-    let full = ctx.cases % 8 == 1 || ctx.is_replay;
+    let full = (ctx.cases % 8 == 1 && (ctx.config != "miri" || ctx.cases == 1)) || ctx.is_replay;
     if full {
         let mut accepted: Vec<MMove> = Vec::new();
         let mut tuples = 0u64;
@@ -177,7 +177,7 @@ fn mv_str(m: &MMove) -> String {
 pub fn run(ctx: &mut Ctx) {
     let n = ctx.budget(500_000, 8_000_000);
     let mut src = Sources::standard(n);
-    if ctx.tier == crate::ctx::Tier::Thorough {
+    if ctx.tier == crate::ctx::Tier::Thorough && ctx.config != "miri" {
         src.three_man = u64::MAX;
     } else {
         src.three_man = n / 10;
